@@ -148,7 +148,7 @@ impl Prop for C13 {
         ]
     }
     fn random_cases(tier: Tier) -> u64 {
-        tier.pick(6_000, 1_200_000)
+        tier.pick(30_000, 1_200_000)
     }
     fn strategy(_tier: Tier) -> BoxedStrategy<Case> {
         let q = (dir_strategy(), 0u8..PATTERNS.len() as u8, prop_oneof![3 => Just(false), 1 => Just(true)], prop_oneof![4 => Just(false), 1 => Just(true)]).prop_map(|(dir, pattern, localized, subdirs)| Query { dir, pattern, localized, subdirs });
